@@ -40,15 +40,19 @@ Definition nf_params (f : nform) : list pitem :=
 
 Definition nf_kpos (f : nform) (p : nat) : kitem := KPosI (nf_lf f (CPos p)) (nf_pid f p).
 Definition nf_knamed (f : nform) (n : nat) : kitem := KNamedI n (nf_lf f (CName n)) (IUser n).
-Definition nf_lookup (f : nform) : list kitem :=
-  map (nf_kpos f) (seq 0 (nf_n f)) ++ map (nf_knamed f) (nf_kr f) ++ (if nf_hasko f then [KTargs] else []).
+Definition nf_kwkeys (f : nform) : list kitem :=
+  map (nf_knamed f) (nf_kr f) ++ (if nf_hasko f then [KTargs] else []).
+Definition nf_lookup (f : nform) : list kitem := map (nf_kpos f) (seq 0 (nf_n f)) ++ nf_kwkeys f.
 Definition nf_apos (f : nform) (p : nat) : aitem := APosI (nf_pid f p).
-Definition nf_posargs (f : nform) : list aitem :=
-  map (nf_apos f) (seq 0 (nf_n f)) ++ map (fun n => AKwI n (IUser n)) (nf_kr f) ++ (if nf_hasko f then [AKwargs] else []).
-Definition nf_exit (f : nform) (m : nat) : stmt :=
-  SExit (nf_pid f m) (mkCall (map (nf_kpos f) (seq 0 m)) (nf_selfa f ++ map (nf_apos f) (seq 0 m))).
+Definition nf_kwitems (f : nform) : list aitem :=
+  map (fun n => AKwI n (IUser n)) (nf_kr f) ++ (if nf_hasko f then [AKwargs] else []).
+Definition nf_posargs (f : nform) : list aitem := map (nf_apos f) (seq 0 (nf_n f)) ++ nf_kwitems f.
+(* the call on the first m positionals and all the keyword parts; m = nf_n f is the final call *)
+Definition nf_call (f : nform) (m : nat) : call :=
+  mkCall (map (nf_kpos f) (seq 0 m) ++ nf_kwkeys f) (nf_selfa f ++ map (nf_apos f) (seq 0 m) ++ nf_kwitems f).
+Definition nf_exit (f : nform) (m : nat) : stmt := SExit (nf_pid f m) (nf_call f m).
 Definition nf_kwopt (f : nform) (n : nat) : stmt := SKwOpt (IUser n) n (IUser n) n (nf_lf f (CName n)) (IUser n).
-Definition nf_final (f : nform) : call := mkCall (nf_lookup f) (nf_selfa f ++ nf_posargs f).
+Definition nf_final (f : nform) : call := nf_call f (nf_n f).
 Definition nf_body (f : nform) : list stmt :=
   (if nf_hasko f then [SInitK; SInitT] else []) ++ map (nf_kwopt f) (nf_ko f)
   ++ map (nf_exit f) (seq (nf_r f) (nf_n f - nf_r f)) ++ [SCall (nf_final f)].
@@ -148,16 +152,26 @@ Proof.
   change (map APosI (map (nf_pid f) (seq 0 n))) with (map APosI (map (nf_pid f) (seq 0 (nf_n f)))).
   assert (P1 : map APosI (map (nf_pid f) (seq 0 (nf_n f))) ++ map (fun n0 => AKwI n0 (IUser n0)) (nf_kr f)
                ++ (if nf_hasko f then [AKwargs] else []) = nf_posargs f).
-  { unfold nf_posargs. rewrite map_map. reflexivity. }
+  { unfold nf_posargs, nf_kwitems. rewrite map_map. reflexivity. }
   rewrite P1.
   (* exits *)
-  assert (X : mapi_from 0 (fun i x => SExit x (mkCall (firstn (r + i) (nf_lookup f)) (nf_selfa f ++ firstn (r + i) (nf_posargs f))))
+  assert (Lnp : length (map (nf_pid f) (seq 0 n)) = n) by (rewrite map_length, seq_length; reflexivity).
+  rewrite Lnp.
+  assert (SK1 : skipn n (nf_lookup f) = nf_kwkeys f).
+  { unfold nf_lookup. rewrite skipn_app, skipn_all2 by (rewrite map_length, seq_length; fold n; lia).
+    rewrite map_length, seq_length. fold n. rewrite Nat.sub_diag. reflexivity. }
+  assert (SK2 : skipn n (nf_posargs f) = nf_kwitems f).
+  { unfold nf_posargs. rewrite skipn_app, skipn_all2 by (rewrite map_length, seq_length; fold n; lia).
+    rewrite map_length, seq_length. fold n. rewrite Nat.sub_diag. reflexivity. }
+  rewrite SK1, SK2.
+  assert (X : mapi_from 0 (fun i x => SExit x (mkCall (firstn (r + i) (nf_lookup f) ++ nf_kwkeys f)
+                                                      (nf_selfa f ++ firstn (r + i) (nf_posargs f) ++ nf_kwitems f)))
                 (map (nf_pid f) (seq r (n - r))) = map (nf_exit f) (seq r (n - r))).
   { rewrite mapi_from_map, mapi_from_seq. rewrite (seq_add_map (n - r) r), map_map.
-    apply map_ext_in. intros j Hj. apply in_seq in Hj. simpl. unfold nf_exit. f_equal. f_equal.
-    - unfold nf_lookup. rewrite firstn_app_le by (rewrite map_length, seq_length; fold n; lia).
+    apply map_ext_in. intros j Hj. apply in_seq in Hj. simpl. unfold nf_exit, nf_call. f_equal. f_equal.
+    - f_equal. unfold nf_lookup. rewrite firstn_app_le by (rewrite map_length, seq_length; fold n; lia).
       rewrite firstn_map, firstn_seq by (fold n; lia). reflexivity.
-    - f_equal. unfold nf_posargs. rewrite firstn_app_le by (rewrite map_length, seq_length; fold n; lia).
+    - f_equal. f_equal. unfold nf_posargs. rewrite firstn_app_le by (rewrite map_length, seq_length; fold n; lia).
       rewrite firstn_map, firstn_seq by (fold n; lia). reflexivity. }
   rewrite X. reflexivity.
 Qed.
